@@ -498,6 +498,15 @@ type boundVar struct {
 	probe *probeCore
 }
 
+// LowerSetByUser sets every SetByUser flag of the host program back to false.
+func (inst *Instance) LowerSetByUser() {
+	for _, bv := range inst.vars {
+		if bv.sbu != nil {
+			*bv.sbu = false
+		}
+	}
+}
+
 type Instance struct {
 	App  *AppDecl
 	Proc *Proc
